@@ -1,11 +1,11 @@
 #!/bin/bash
 # tools_seed_confirm.sh <seed dir name>...: confirm a seeded change in a fresh scratch worktree:
 #   it builds; the pinned reference set passes WITH the change; the demonstration FAILS with and PASSES without it.
-# The agents' demo commands refer to /tmp/seed-<id> (round 1) or /tmp/seed2-<id> (round 2, directories r2-<id>).
+# The agents' demo commands refer to /tmp/seed-<id> (round 1), /tmp/seed2-<id> (round 2, directories r2-<id>) or /tmp/seed3-<id> (round 3, r3-<id>).
 export GOFLAGS=-mod=mod GOPROXY=off GOSUMDB=off GOTOOLCHAIN=local
 for d in "$@"; do
   S=/verif/seeded/$d
-  case $d in r2-*) id=${d#r2-}; W=/tmp/seed2-$id; D=/tmp/seed2-$id-demo ;; *) id=$d; W=/tmp/seed-$id; D=/tmp/seed-$id-demo ;; esac
+  case $d in r3-*) id=${d#r3-}; W=/tmp/seed3-$id; D=/tmp/seed3-$id-demo ;; r2-*) id=${d#r2-}; W=/tmp/seed2-$id; D=/tmp/seed2-$id-demo ;; *) id=$d; W=/tmp/seed-$id; D=/tmp/seed-$id-demo ;; esac
   git -C /repo worktree remove --force $W >/dev/null 2>&1; rm -rf $W $D
   git -C /repo worktree add --detach $W HEAD >/dev/null 2>&1 || { echo "$d: cannot create worktree"; continue; }
   mkdir -p $D/tmp; cp $S/demo_test.go $S/patch.diff $D/
